@@ -260,6 +260,11 @@ def run(tier, seed, replay):
                         warnings.simplefilter("ignore")
                         res_ = mddr(Ld2, DL, sc_, Od)
                     expect.append(("buffer", buf(res_, bool(res_.fortran)), res_.to_array()))
+        # add_dia on operands in the library's normal form (increasing offsets)
+        DAs, DBs = build(a, "dia", rng), build(other, "dia", rng)
+        if all(np.all(np.diff(D.as_scipy().offsets) > 0) for D in (DAs, DBs)):
+            lines.append("C01.add_dia " + json.dumps({"a": dia_json(DAs), "b": dia_json(DBs), "scale": [int(sc.real), int(sc.imag)]}))
+            expect.append(("abs", _data.add_dia(DAs, DBs, sc).to_array()))
         for cj in (False, True):
             lines.append("C01.transpose_dia " + json.dumps({"a": dia_json(DL), "conj": cj}))
             tr_ = _data.adjoint_dia(DL) if cj else _data.transpose_dia(DL)
